@@ -11,13 +11,19 @@
    squaring under sign conditions (sqrtmul_lt, justified in Proofs by sqrtmul_lt_correct). *)
 From Coq Require Import ZArith QArith Qabs List Bool Lia.
 Import ListNotations.
+From PV Require Export C17.Base.
+From PV Require Import Generated.Reject Generated.SkyMask Generated.MaskInterp.
 Open Scope Q_scope.
+
+(* The pieces named rej_..., sky_..., mi_... are GENERATED from the pydl source on every run by
+   translate/c17.py (coq/Generated/Reject.v, SkyMask.v, MaskInterp.v): comparison operators and threshold
+   expressions of every limit branch, the inmask / sticky products, the grow loop bounds and clamps, the
+   qdone expression, skymask's flag tests, width arithmetic, smooth() arguments and `> 0` test, and the
+   `const` rules of djs_maskinterp1.  M is assembled from them; S never mentions them. *)
 
 (* ------------------------------------------------------------------ generic helpers *)
 
-Definition Qltb (a b : Q) : bool := negb (Qle_bool b a).
-Definition b2q (b : bool) : Q := if b then 1 else 0.
-Definition qnat (n : nat) : Q := inject_Z (Z.of_nat n).
+Definition zrange (lo : Z) (n : nat) : list Z := map (fun k => (lo + Z.of_nat k)%Z) (seq 0 n).
 
 (* indices k+0, k+1, ... at which the list holds the wanted boolean (numpy .nonzero()[0]) *)
 Fixpoint positions_from (k : nat) (m : list bool) (want : bool) : list nat :=
@@ -25,9 +31,6 @@ Fixpoint positions_from (k : nat) (m : list bool) (want : bool) : list nat :=
   | [] => []
   | b :: r => if Bool.eqb b want then k :: positions_from (S k) r want else positions_from (S k) r want
   end.
-
-Definition list_beq (a b : list bool) : bool :=
-  Nat.eqb (length a) (length b) && forallb (fun p => Bool.eqb (fst p) (snd p)) (combine a b).
 
 (* ------------------------------------------------------------------ dilation (S) *)
 
@@ -46,15 +49,7 @@ Inductive scale := Sig (s : Q) | Ivar (iv : Q).
 Record point := mkP { p_data : Q; p_model : Q; p_scale : scale; p_in : bool; p_out : bool }.
 Record ropts := mkO { o_lower : option Q; o_upper : option Q; o_maxdev : option Q; o_sticky : bool; o_grow : nat }.
 
-(* d * sqrt(iv) < c, for iv >= 0, without the square root *)
-Definition sqrtmul_lt (d iv c : Q) : bool :=
-  if Qltb 0 c then Qle_bool d 0 || Qltb (d * d * iv) (c * c)
-  else Qltb d 0 && Qltb (c * c) (d * d * iv).
-
-(* sigma + (sigma == 0) *)
-Definition sig1 (s : Q) : Q := s + b2q (Qeq_bool s 0).
-
-(* M: the `badness` working array, term by term as the Python accumulates it
+(* M: the `badness` working array, accumulated branch by branch from the generated qbad tests and terms
    (the port turned IDL's maximum operator `> 0` into a comparison, so the sigma terms are 0/1) *)
 Definition badness (o : ropts) (p : point) : Q :=
   let d := p_data p - p_model p in
@@ -62,47 +57,55 @@ Definition badness (o : ropts) (p : point) : Q :=
    | None => 0
    | Some l =>
      match p_scale p with
-     | Sig s => b2q (Qltb 0 ((- d) / sig1 s)) * b2q (Qltb d ((- l) * s))
-     | Ivar iv => b2q (sqrtmul_lt d iv 0) * b2q (sqrtmul_lt d iv (- l))
+     | Sig s => rej_lower_sig_term d l s (rej_lower_sig_qbad d l s)
+     | Ivar iv => rej_lower_iv_term d l iv (rej_lower_iv_qbad d l iv)
      end
    end)
   + (match o_upper o with
      | None => 0
      | Some u =>
        match p_scale p with
-       | Sig s => b2q (Qltb 0 (d / sig1 s)) * b2q (Qltb (u * s) d)
-       | Ivar iv => b2q (sqrtmul_lt (- d) iv 0) * b2q (sqrtmul_lt (- d) iv (- u))
+       | Sig s => rej_upper_sig_term d u s (rej_upper_sig_qbad d u s)
+       | Ivar iv => rej_upper_iv_term d u iv (rej_upper_iv_qbad d u iv)
        end
      end)
   + (match o_maxdev o with
      | None => 0
-     | Some x => Qabs d / x * b2q (Qltb x (Qabs d))
+     | Some x => rej_maxdev_term d x (rej_maxdev_qbad d x)
      end).
 
+(* badness *= inmask ; if sticky: badness *= outmask *)
 Definition badness_masked (o : ropts) (p : point) : Q :=
-  badness o p * b2q (p_in p) * (if o_sticky o then b2q (p_out p) else 1).
+  rej_products (badness o p) (p_in p) (p_out p) (o_sticky o).
 
 (* newmask[idx] = 0 *)
 Definition set_false (i : nat) (m : list bool) : list bool :=
   if (i <? length m)%nat then firstn i m ++ false :: skipn (S i) m else m.
 
-(* one value of k:  newmask[max(irejects-k,0)] = 0 ; newmask[min(irejects+k,n-1)] = 0
-   (nat subtraction truncates at 0 = the IDL `> 0` clamp) *)
-Definition grow_pass (n k : nat) (rej : list nat) (m : list bool) : list bool :=
-  let m1 := fold_left (fun acc p => set_false (p - k) acc) rej m in
-  fold_left (fun acc p => set_false (Nat.min (p + k) (n - 1)) acc) rej m1.
+(* numpy index -> list position: negative indices count from the end *)
+Definition np_index (n i : Z) : nat := Z.to_nat (if (i <? 0)%Z then (n + i)%Z else i).
 
-(* for k in 1..grow, around the points rejected before growing *)
+(* one value of k:  newmask[<left index>] = 0 ; newmask[<right index>] = 0  with the generated index
+   expressions (np.maximum(irejects-k, 0), np.minimum(irejects+k, n-1)) *)
+Definition grow_pass (n : nat) (k : Z) (rej : list nat) (m : list bool) : list bool :=
+  let zn := Z.of_nat n in
+  let m1 := fold_left (fun acc p => set_false (np_index zn (rej_grow_left (Z.of_nat p) k zn)) acc) rej m in
+  fold_left (fun acc p => set_false (np_index zn (rej_grow_right (Z.of_nat p) k zn)) acc) rej m1.
+
+(* if grow > 0: for k in range(klo, khi), around the points rejected before growing *)
 Definition grow_model (g : nat) (m : list bool) : list bool :=
   let rej := positions_from 0 m false in
-  fold_left (fun acc k => grow_pass (length m) k rej acc) (seq 1 g) m.
+  let zg := Z.of_nat g in
+  if rej_grow_guard zg
+  then fold_left (fun acc k => grow_pass (length m) k rej acc)
+                 (zrange (rej_grow_klo zg) (Z.to_nat (rej_grow_khi zg - rej_grow_klo zg))) m
+  else m.
 
 Definition reject_model (o : ropts) (pts : list point) : list bool * bool :=
-  let newmask := map (fun p => Qeq_bool (badness_masked o p) 0) pts in
+  let newmask := map (fun p => rej_newmask (badness_masked o p)) pts in
   let grown := grow_model (o_grow o) newmask in
-  let final := map (fun gp => fst gp && p_in (snd gp) && (if o_sticky o then p_out (snd gp) else true))
-                   (combine grown pts) in
-  (final, list_beq final (map p_out pts)).
+  let final := map (fun gp => rej_final (fst gp) (p_in (snd gp)) (p_out (snd gp)) (o_sticky o)) (combine grown pts) in
+  (final, rej_qdone final (map p_out pts)).
 
 (* S: which points are beyond the limits (documented rule), which are rejected, qdone *)
 Definition beyond (o : ropts) (p : point) : bool :=
@@ -307,8 +310,6 @@ Definition median_of (l : list Z) : Z := nth (Nat.div2 (length l)) (zsort l) 0.
 (* element j of l, 0 outside (scipy.signal.medfilt pads with zeros) *)
 Definition nthz (l : list Z) (j : Z) : Z := if j <? 0 then 0 else nth (Z.to_nat j) l 0.
 
-Definition zrange (lo : Z) (n : nat) : list Z := map (fun k => lo + Z.of_nat k) (seq 0 n).
-
 (* pydl.median(array, width) for 1-D: medfilt(array, min(width, size)), edges restored *)
 Definition pydl_median1 (arr : list Z) (width : Z) : list Z :=
   let n := Z.of_nat (length arr) in
@@ -364,35 +365,42 @@ Definition median_reflect2_spec (rows : list (list Z)) (width : Z) : list (list 
 
 Definition zsum (l : list Z) : Z := fold_right Z.add 0 l.
 
-(* pydl.smooth(signal, width, edge_truncate=True) on an integer array, width odd >= 3:
-   the float quotient is truncated when it is stored back into the int32 array *)
-Definition smooth_trunc (sig : list Z) (width : Z) : list Z :=
-  let n := Z.of_nat (length sig) in
-  let istart := (width - 1) / 2 in
-  let iend := n - (width + 1) / 2 in
-  let w2 := width / 2 in
-  map (fun i =>
-         if i <? istart then
-           Z.quot (zsum (firstn (Z.to_nat (istart + i + 1)) sig) + (istart - i) * nth 0 sig 0) width
-         else if iend <? i then
-           Z.quot (zsum (skipn (Z.to_nat (i - istart)) sig) + (i - iend) * nth (length sig - 1) sig 0) width
-         else
-           Z.quot (zsum (firstn (Z.to_nat (2 * w2 + 1)) (skipn (Z.to_nat (i - w2)) sig))) width)
-      (zrange 0 (length sig)).
+(* pydl.smooth(signal, owidth, edge_truncate) on an integer array: even widths are raised by one, widths
+   below 3 return the input, the float quotient is truncated when it is stored back into the int32 array,
+   and without edge_truncate the samples near the ends keep their values *)
+Definition smooth_model (sig : list Z) (owidth : Z) (edge : bool) : list Z :=
+  let width := if owidth mod 2 =? 0 then owidth + 1 else owidth in
+  if width <? 3 then sig
+  else
+    let n := Z.of_nat (length sig) in
+    let istart := (width - 1) / 2 in
+    let iend := n - (width + 1) / 2 in
+    let w2 := width / 2 in
+    map (fun i =>
+           if i <? istart then
+             if edge then Z.quot (zsum (firstn (Z.to_nat (istart + i + 1)) sig) + (istart - i) * nth 0 sig 0) width
+             else nth (Z.to_nat i) sig 0
+           else if iend <? i then
+             if edge then Z.quot (zsum (skipn (Z.to_nat (i - istart)) sig) + (i - iend) * nth (length sig - 1) sig 0) width
+             else nth (Z.to_nat i) sig 0
+           else
+             Z.quot (zsum (firstn (Z.to_nat (2 * w2 + 1)) (skipn (Z.to_nat (i - w2)) sig))) width)
+        (zrange 0 (length sig)).
 
-(* (ormask.astype(uint64) & flag) != 0 *)
-Definition flag_test_u64 (flag m : Z) : bool := negb (Z.land (m mod 2 ^ 64) flag =? 0).
-
+(* M: flag tests, guard, width, smooth() arguments, `> 0` test and the final product are the generated pieces *)
 Definition skymask_row_model (f1 f2 : Z) (ngrow : nat) (iv : list Q) (mask : option (list Z)) : list Q :=
   let bad0 := match mask with
-              | Some ms => map (fun m => orb (flag_test_u64 f1 m) (flag_test_u64 f2 m)) ms
+              | Some ms => map (fun m => sky_flagged m f1 f2) ms
               | None => map (fun _ => false) iv
               end in
-  let bad := if (0 <? ngrow)%nat
-             then let width := 2 * Z.of_nat ngrow + 1 in
-                  map (fun v => 0 <? v) (smooth_trunc (map (fun b : bool => if b then width else 0) bad0) width)
+  let zg := Z.of_nat ngrow in
+  let bad := if sky_grow_guard zg
+             then let width := sky_width zg in
+                  map sky_smooth_test
+                      (smooth_model (map (fun b : bool => (if b then 1 else 0) * sky_smooth_scale width) bad0)
+                                    (sky_smooth_width width) sky_smooth_edge)
              else bad0 in
-  map (fun vb => (fst vb * (1 - b2q (snd vb)))%Q) (combine iv bad).
+  map (fun vb => sky_apply (fst vb) (snd vb)) (combine iv bad).
 
 (* S: a pixel is flagged when the mask VALUE (signed or unsigned, as stored) has a bit in common
    with either flag; the inverse variance is zeroed within ngrow pixels of a flagged pixel *)
